@@ -199,18 +199,28 @@ def dec_tok(t):
     raise ValueError(t)
 
 
+def build_header(fields7, blocks):
+    """A Header with the given seven fields (reserved included) and ordered blocks, built through the public interface only:
+    `Header.load` of the 16 fixed characters sets every field, item assignment adds the blocks."""
+    ver, ku, al, mou, vn, ex, res = fields7
+    h = _tr31.Header()
+    h.load(ver + "0016" + ku + al + mou + vn + ex + "00" + res)
+    for k, v in blocks:
+        h.blocks[k] = v
+    return h
+
+
 def header_from_token(t):
     parts = t[2:].split("/")
 
     def g(x):
         return "".join(chr(int(c)) for c in x.split(",")) if x else ""
-    h = _tr31.Header()
-    h._version_id, h._key_usage, h._algorithm, h._mode_of_use, h._version_num, h._exportability, h._reserved = [g(p) for p in parts[:7]]
+    blocks = []
     if parts[7]:
         for e in parts[7].split(";"):
             k, v = e.split("~")
-            h.blocks._blocks[g(k)] = g(v)
-    return h
+            blocks.append((g(k), g(v)))
+    return build_header([g(p) for p in parts[:7]], blocks)
 
 
 # --------------------------------------------------------------------------
